@@ -14,6 +14,7 @@ import (
 	"github.com/NethermindEth/juno/core"
 	"github.com/NethermindEth/juno/core/felt"
 	"github.com/NethermindEth/juno/core/pending"
+	jsync "github.com/NethermindEth/juno/sync"
 	"github.com/NethermindEth/juno/sync/preconfirmed"
 
 	"verifharness/internal/chainkit"
@@ -40,6 +41,7 @@ type result struct {
 	Aff  *slot  `json:"aff"`
 	Ch   bool   `json:"ch"`
 	Len  int    `json:"len"`
+	Fb   bool   `json:"fallback"`
 	St1  string `json:"st1"`
 	Tag1 string `json:"tag1"`
 }
@@ -400,6 +402,11 @@ func (r *run) apply(st *step) *mismatch {
 		h := &handle{reader: v, fp: fingerprint(&v)}
 		r.views = append(r.views, h)
 		fullReads = true
+	case "ReaderChain":
+		if m := r.readerChain(&st.Res); m != nil {
+			return m
+		}
+		fullReads = true
 	case "HeadAdvance":
 		if err := r.w.headAdvance(r.node, len(st.Canon), a.V); err != nil {
 			return mm("harness:head-advance", err.Error(), nil, nil)
@@ -414,6 +421,32 @@ func (r *run) apply(st *step) *mismatch {
 		return mm("harness:unknown-action", a.Name, nil, nil)
 	}
 	return r.compareAll(st, ctx, fullReads)
+}
+
+// readerChain is Synchronizer.PreConfirmedChain() (sync/sync.go) over this run's storage: the
+// snapshot above the current head, or a one-block view holding the empty placeholder block.
+func (r *run) readerChain(res *result) *mismatch {
+	head, err := r.node.BC.HeadsHeader()
+	if err != nil {
+		return mm("harness:heads-header", err.Error(), nil, nil)
+	}
+	v := r.storage.SnapshotForBlock(head.Number + 1)
+	fallback := v.Length() == 0
+	if fallback {
+		empty, err := jsync.MakeEmptyPreConfirmedForParent(r.node.BC, head)
+		if err != nil {
+			return mm("readerchain:placeholder", "MakeEmptyPreConfirmedForParent: "+err.Error(), nil, nil)
+		}
+		if v, err = preconfirmed.NewChain(&empty); err != nil {
+			return mm("readerchain:newchain", "NewChain: "+err.Error(), nil, nil)
+		}
+	}
+	if fallback != res.Fb || v.Length() != res.Len {
+		return mm("readerchain:shape", "the reader's view above the head", fmt.Sprintf("fallback=%v len=%d", res.Fb, res.Len),
+			fmt.Sprintf("fallback=%v len=%d", fallback, v.Length()))
+	}
+	r.views = append(r.views, &handle{reader: v, fp: fingerprint(&v)})
+	return nil
 }
 
 func (r *run) compareAll(st *step, ctx string, fullReads bool) *mismatch {
